@@ -1,53 +1,94 @@
 (* Props/C12.v — property C12: the output is a deterministic function of the inputs.
    Statements only; proofs are in Out/ProjectProofs.v (model: Out/Project.v, Out/Names.v).
-   The model is the pipeline after the repairs 80d6c91 (source files parsed in sorted order) and
-   c3c7c8e (InheritedByGraph walks sorted(children)). *)
+   The model is the pipeline after the repairs 80d6c91 (source files parsed in sorted order),
+   c3c7c8e (InheritedByGraph walks sorted(children)), the toposort repair (identifiers of modules
+   and submodules requested in list order before toposort_flatten) and the "Uses" repair (the list
+   is rendered through sort_by_name). *)
 From Coq Require Import Permutation.
 From Ford Require Import Base.Str Base.Order Out.Names Out.Project Out.ProjectProofs.
 
 (* Full statement: the identifiers (hence page names, anchors and URLs) depend neither on the
-   iteration order of the set of source files (pi) nor on the iteration order of the sets of
-   objects walked while correlating (sigma).  It is still FALSE of the code, because of sigma. *)
+   iteration order of the set of source files (pi), nor on the iteration orders of the sets of
+   objects hashed by id that the run walks — the sets that ask for identifiers already assigned
+   (sigma) and the order among requests for different names inside the rank-ordered loops (F1, F2:
+   any two sequences that agree with the project's, key by key).  Well-formedness: one request per
+   entity, distinct paths. *)
 Definition C12_statement : Prop :=
-  forall P pi1 pi2 sigma1 sigma2,
+  forall P pi1 pi2 sigma1 sigma2 F1 F2,
+    consistentb P = true -> NoDup (map f_path (p_files P)) ->
     is_perm pi1 (length (p_files P)) -> is_perm pi2 (length (p_files P)) ->
-    perms_ok (p_sets P) sigma1 -> perms_ok (p_sets P) sigma2 ->
-    idents P pi1 sigma1 = idents P pi2 sigma2.
+    sigma_ok P pi1 sigma1 -> sigma_ok P pi2 sigma2 -> fixed_ok P F1 -> fixed_ok P F2 ->
+    idents P pi1 sigma1 F1 = idents P pi2 sigma2 F2.
 
-(* By-file phases, full: the order in which the set of source files is iterated never matters —
-   any number of files, competing names or not. *)
-Theorem C12_file_order_irrelevant : forall P pi1 pi2 sigma,
+(* MAIN THEOREM: it holds — any number of files, competing names or not *)
+Theorem C12_deterministic : C12_statement.
+Proof. exact deterministic. Qed.
+Print Assumptions C12_deterministic.
+
+(* its two halves *)
+Theorem C12_file_order_irrelevant : forall P pi1 pi2,
   NoDup (map f_path (p_files P)) ->
   is_perm pi1 (length (p_files P)) -> is_perm pi2 (length (p_files P)) ->
-  idents P pi1 sigma = idents P pi2 sigma.
-Proof. exact file_order_irrelevant. Qed.
+  sorted_enum P pi1 = sorted_enum P pi2.
+Proof. exact sorted_enum_canonical. Qed.
 Print Assumptions C12_file_order_irrelevant.
 
-Theorem C12_sorted_is_canonical_any_order : forall (leb : pfile -> pfile -> bool) P pi1 pi2 sets,
+Theorem C12_set_order_irrelevant : forall P pi sigma1 sigma2 F1 F2,
+  consistentb P = true -> is_perm pi (length (p_files P)) ->
+  sigma_ok P pi sigma1 -> sigma_ok P pi sigma2 -> fixed_ok P F1 -> fixed_ok P F2 ->
+  idents P pi sigma1 F1 = idents P pi sigma2 F2.
+Proof. exact set_order_irrelevant. Qed.
+Print Assumptions C12_set_order_irrelevant.
+
+(* the per-key factorisation behind it: the identifier of an entity is decided by the requests for
+   its own (directory, normalised name) alone *)
+Theorem C12_ident_by_key : forall rs r, consistentP rs -> In r rs ->
+  ident_in (fst (run init rs)) (r_id r)
+  = ident_in (fst (run init (filter (has_key (name_key r)) rs))) (r_id r).
+Proof. exact ident_by_key. Qed.
+Print Assumptions C12_ident_by_key.
+
+(* and the reason why the id-set phases do not matter, for any sequence of phases, any enumeration and any state of
+   the selector: phases that only ask for what has been asked for leave the selector as it is *)
+Theorem C12_repeated_requests_irrelevant : forall pl enum fixed t1 t2 acc st,
+  (forall r, In r acc -> has_item st r) ->
+  (forall k r, In r (nth k t1 []) -> In r (seen_before pl enum k acc)) ->
+  (forall k r, In r (nth k t2 []) -> In r (seen_before pl enum k acc)) ->
+  fst (run st (registration_of pl enum fixed t1)) = fst (run st (registration_of pl enum fixed t2)).
+Proof. exact idset_irrelevant_of. Qed.
+Print Assumptions C12_repeated_requests_irrelevant.
+
+Theorem C12_sorted_is_canonical_any_order : forall (leb : pfile -> pfile -> bool) P pi1 pi2 fixed idt,
   total leb -> transitive leb -> antisym_on leb (p_files P) ->
   is_perm pi1 (length (p_files P)) -> is_perm pi2 (length (p_files P)) ->
-  idents_enum P (isort leb (enumerate (p_files P) pi1)) sets
-  = idents_enum P (isort leb (enumerate (p_files P) pi2)) sets.
+  idents_enum P (isort leb (enumerate (p_files P) pi1)) fixed idt
+  = idents_enum P (isort leb (enumerate (p_files P) pi2)) fixed idt.
 Proof. exact sorted_is_canonical_gen. Qed.
 Print Assumptions C12_sorted_is_canonical_any_order.
 
-(* ... nor does the place where the project lives (all source files below one root) *)
-Theorem C12_location_irrelevant : forall root P pi sigma,
-  idents (relocate root P) pi sigma = idents P pi sigma.
+(* ... nor does the place where the project lives matter (all source files below one root) *)
+Theorem C12_location_irrelevant : forall root P pi sigma F,
+  idents (relocate root P) pi sigma F = idents P pi sigma F.
 Proof. exact location_irrelevant. Qed.
 Print Assumptions C12_location_irrelevant.
 
-(* the former refutation witness (two files, a variable x in each): file order no longer matters;
-   a.f90 owns "variable-x", b.f90 gets "variable-x~2" *)
-Theorem C12_former_clash_witness_repaired :
-  idents clash_project [0; 1] [] = idents clash_project [1; 0] [] /\
-  idents clash_project [1; 0] [] =
-    [(1, Some (s "a.f90")); (2, Some (s "ma")); (3, Some (s "x"));
-     (4, Some (s "b.f90")); (5, Some (s "mb")); (6, Some (s "x~2"))].
-Proof. exact clash_project_sorted. Qed.
-Print Assumptions C12_former_clash_witness_repaired.
+(* non-vacuity, and the former refutation witnesses on the repaired pipeline: two modules named m in
+   two files (and a variable x in each): a.f90 owns "m" and "variable-x", b.f90 gets "m~2" and
+   "variable-x~2", whatever pi and sigma *)
+Theorem C12_former_witnesses_repaired :
+  NoDup (map f_path (p_files twins_project)) /\
+  is_perm [1; 0] (length (p_files twins_project)) /\
+  idsel twins_project [1; 0] = [[mkr 1 (s "module") (s "m"); mkr 2 (s "module") (s "m")]] /\
+  sigma_ok twins_project [1; 0] [[1; 0]] /\ sigma_ok twins_project [0; 1] [[0; 1]] /\
+  fixed_ok twins_project (p_sets twins_project) /\ consistentb twins_project = true /\
+  idents twins_project [1; 0] [[1; 0]] (p_sets twins_project)
+    = idents twins_project [0; 1] [[0; 1]] (p_sets twins_project) /\
+  idents twins_project [1; 0] [[1; 0]] (p_sets twins_project) =
+    [(3, Some (s "x")); (1, Some (s "m")); (4, Some (s "x~2")); (2, Some (s "m~2")); (5, Some (s "t"))].
+Proof. exact twins_project_ok. Qed.
+Print Assumptions C12_former_witnesses_repaired.
 
-(* what 80d6c91 repaired: the pipeline that iterates the set as it comes *)
+(* what 80d6c91 repaired: the pipeline that iterates the set of files as it comes *)
 Definition C12_unsorted_statement : Prop :=
   forall P pi1 pi2 sigma,
     is_perm pi1 (length (p_files P)) -> is_perm pi2 (length (p_files P)) ->
@@ -56,70 +97,40 @@ Theorem C12_unsorted_refuted : ~ C12_unsorted_statement.
 Proof. exact unsorted_statement_refuted. Qed.
 Print Assumptions C12_unsorted_refuted.
 
-(* Set-ordered phases, partial: their order does not matter when no entity requested there competes
-   with another entity for a NameSelector counter (region: sets_isolatedb) *)
-Theorem C12_set_order_irrelevant : forall P pi sigma1 sigma2,
-  consistentb P = true -> sets_isolatedb P = true ->
-  is_perm pi (length (p_files P)) ->
-  perms_ok (p_sets P) sigma1 -> perms_ok (p_sets P) sigma2 ->
-  idents P pi sigma1 = idents P pi sigma2.
-Proof. exact set_order_irrelevant. Qed.
-Print Assumptions C12_set_order_irrelevant.
+(* what the toposort repair repaired: a set-ordered loop that is the first to ask for identifiers
+   (two equally named modules were numbered in the iteration order of a set of objects) *)
+Definition C12_free_sets_statement : Prop :=
+  forall P pi sigma1 sigma2,
+    is_perm pi (length (p_files P)) ->
+    perms_ok (p_sets P) sigma1 -> perms_ok (p_sets P) sigma2 ->
+    idents_free_sets P pi sigma1 = idents_free_sets P pi sigma2.
+Theorem C12_free_sets_refuted : ~ C12_free_sets_statement.
+Proof. exact free_sets_statement_refuted. Qed.
+Print Assumptions C12_free_sets_refuted.
 
-(* PARTIAL theorem for the full statement: all orders at once *)
-Theorem C12_partial : forall P pi1 pi2 sigma1 sigma2,
-  consistentb P = true -> sets_isolatedb P = true -> NoDup (map f_path (p_files P)) ->
-  is_perm pi1 (length (p_files P)) -> is_perm pi2 (length (p_files P)) ->
-  perms_ok (p_sets P) sigma1 -> perms_ok (p_sets P) sigma2 ->
-  idents P pi1 sigma1 = idents P pi2 sigma2.
-Proof. exact deterministic_partial. Qed.
-Print Assumptions C12_partial.
-
-(* REFUTATION: two equally named modules in one level of the toposort are numbered in the iteration
-   order of a set of objects hashed by id *)
-Theorem C12_refuted_witness :
-  is_perm [0; 1] (length (p_files modclash_project)) /\
-  perms_ok (p_sets modclash_project) [[0; 1]] /\ perms_ok (p_sets modclash_project) [[1; 0]] /\
-  sets_isolatedb modclash_project = false /\ consistentb modclash_project = true /\
-  idents modclash_project [0; 1] [[0; 1]] = [(1, Some (s "m")); (2, Some (s "m~2"))] /\
-  idents modclash_project [0; 1] [[1; 0]] = [(1, Some (s "m~2")); (2, Some (s "m"))].
-Proof. exact modclash_differs. Qed.
-Print Assumptions C12_refuted_witness.
-
-Theorem C12_refuted : ~ C12_statement.
-Proof. exact statement_refuted. Qed.
-Print Assumptions C12_refuted.
-
-(* clash-free projects: any order of anything (the NameSelector-level reason and its corollary) *)
+(* the NameSelector-level fact behind clash-free projects: any order of anything *)
 Theorem C12_noclash_order_irrelevant : forall rs1 rs2,
   no_clash_list rs1 = true -> (forall r, In r rs1 <-> In r rs2) ->
   forall id, ident_in (fst (run init rs1)) id = ident_in (fst (run init rs2)) id.
 Proof. exact noclash_order_irrelevant_b. Qed.
 Print Assumptions C12_noclash_order_irrelevant.
 
-Theorem C12_perm_invariant_noclash : forall P pi1 pi2 sigma1 sigma2,
-  no_clashb P = true ->
-  is_perm pi1 (length (p_files P)) -> is_perm pi2 (length (p_files P)) ->
-  perms_ok (p_sets P) sigma1 -> perms_ok (p_sets P) sigma2 ->
-  idents P pi1 sigma1 = idents P pi2 sigma2.
-Proof. exact perm_invariant_noclash. Qed.
-Print Assumptions C12_perm_invariant_noclash.
-
-(* "Uses" lists: self.uses is a set of module objects; the page shows it in iteration order *)
-Definition C12_uses_statement : Prop :=
-  forall uses pi1 pi2, is_perm pi1 (length uses) -> is_perm pi2 (length uses) ->
-    shown_uses uses pi1 = shown_uses uses pi2.
-Theorem C12_uses_partial : forall uses pi1 pi2,
-  length uses <= 1 -> is_perm pi1 (length uses) -> is_perm pi2 (length uses) ->
+(* "Uses" lists: self.uses is a set of module objects (and names); the page shows it sorted by
+   (lower-cased name, name) *)
+Theorem C12_uses_sorted : forall uses pi1 pi2,
+  is_perm pi1 (length uses) -> is_perm pi2 (length uses) ->
   shown_uses uses pi1 = shown_uses uses pi2.
-Proof. exact uses_partial. Qed.
-Print Assumptions C12_uses_partial.
-Theorem C12_uses_refuted : ~ C12_uses_statement.
-Proof. exact uses_statement_refuted. Qed.
-Print Assumptions C12_uses_refuted.
+Proof. exact uses_sorted. Qed.
+Print Assumptions C12_uses_sorted.
 
-(* graphs: nodes and (since c3c7c8e) the child edges of InheritedByGraph are emitted as a function
-   of the set *)
+Definition C12_uses_unsorted_statement : Prop :=
+  forall uses pi1 pi2, is_perm pi1 (length uses) -> is_perm pi2 (length uses) ->
+    shown_uses_unsorted uses pi1 = shown_uses_unsorted uses pi2.
+Theorem C12_uses_unsorted_refuted : ~ C12_uses_unsorted_statement.
+Proof. exact uses_unsorted_refuted. Qed.
+Print Assumptions C12_uses_unsorted_refuted.
+
+(* graphs: nodes and the child edges of InheritedByGraph are emitted as a function of the set *)
 Theorem C12_graph_emission_sorted : forall nodes pi1 pi2,
   is_perm pi1 (length nodes) -> is_perm pi2 (length nodes) ->
   emit_nodes nodes pi1 = emit_nodes nodes pi2.
@@ -139,6 +150,23 @@ Theorem C12_child_edges_unsorted_refuted : ~ C12_child_edges_unsorted_statement.
 Proof. exact child_edges_unsorted_refuted. Qed.
 Print Assumptions C12_child_edges_unsorted_refuted.
 
+(* the table shown instead of an oversized graph: its rows are a function of the set of neighbours
+   (stable sort by label of the identifier-ordered edge list) ... *)
+Theorem C12_table_rows_sorted : forall neighbours pi1 pi2,
+  NoDup (map fst neighbours) ->
+  is_perm pi1 (length neighbours) -> is_perm pi2 (length neighbours) ->
+  emit_table_rows neighbours pi1 = emit_table_rows neighbours pi2.
+Proof. exact table_rows_sorted. Qed.
+Print Assumptions C12_table_rows_sorted.
+
+(* ... which sorting the set by label alone would not be *)
+Theorem C12_table_rows_from_set_refuted :
+  exists neighbours pi1 pi2,
+    NoDup (map fst neighbours) /\ is_perm pi1 (length neighbours) /\ is_perm pi2 (length neighbours) /\
+    emit_table_rows_from_set neighbours pi1 <> emit_table_rows_from_set neighbours pi2.
+Proof. exact table_rows_from_set_refuted. Qed.
+Print Assumptions C12_table_rows_from_set_refuted.
+
 (* what an earlier run left in the output directory does not matter *)
 Theorem C12_stale_output_irrelevant : forall out pages fs1 fs2,
   restrict out (writeout out pages fs1) = restrict out (writeout out pages fs2).
@@ -151,17 +179,3 @@ Theorem C12_merge_refuted :
     restrict out (writeout_merge out pages fs1) <> restrict out (writeout_merge out pages fs2).
 Proof. exact merge_refuted. Qed.
 Print Assumptions C12_merge_refuted.
-
-(* non-vacuity of C12_partial: names compete in the by-file phases, the toposort set is non-trivial,
-   and every hypothesis holds *)
-Theorem C12_nonvacuous :
-  no_clashb partial_project = false /\
-  consistentb partial_project = true /\ sets_isolatedb partial_project = true /\
-  is_perm [1; 0] (length (p_files partial_project)) /\
-  perms_ok (p_sets partial_project) [[1; 0]] /\
-  NoDup (map f_path (p_files partial_project)) /\
-  idents partial_project [1; 0] [[1; 0]] =
-    [(1, Some (s "a.f90")); (4, Some (s "b.f90")); (6, Some (s "x~2")); (3, Some (s "x"));
-     (2, Some (s "ma")); (5, Some (s "mb"))].
-Proof. exact partial_project_ok. Qed.
-Print Assumptions C12_nonvacuous.
